@@ -102,6 +102,11 @@ def gen_spheres(p, workdir):
     dump = p.get("dump_interval")
     pair_tags = ["pair"] if not cells else ["pair_nearby", "pair_surplus", "cell_boundary"] + \
         (["pair_far"] if cells.get("far", True) else [])
+    second = bool(cells and cells.get("second_system"))
+    if second:
+        # a second, weaker pair interaction with its own cell-occupancy system on the SAME cell grid (coinciding faces: the
+        # two cell-boundary events of a crossing carry identical times)
+        pair_tags += ["pair2_nearby", "pair2_surplus", "cell_boundary2"]
     all_motion = ", ".join(pair_tags)
     taggers = []
     if not cells:
@@ -111,13 +116,17 @@ def gen_spheres(p, workdir):
                     "cell_boundary (cell_boundary_tagger)"]
         if cells.get("far", True):
             taggers.append("pair_far (cell_veto_tagger)" if cells.get("veto") else "pair_far (cell_bounding_potential_tagger)")
+    if second:
+        taggers += ["pair2_nearby (excluded_cells_tagger)", "pair2_surplus (surplus_cells_tagger)",
+                    "cell_boundary2 (cell_boundary_tagger)"]
     taggers += ["sampling (no_in_state_tagger)", "end_of_chain (active_global_state_in_state_tagger)",
                 "start_of_run (no_in_state_tagger)", "end_of_run (no_in_state_tagger)"]
     if dump:
         taggers.append("dumping (no_in_state_tagger)")
     cfg["TagActivator"] = {"taggers": ",\n".join(taggers)}
     if cells:
-        cfg["TagActivator"]["internal_states"] = "single_active_cell_occupancy"
+        cfg["TagActivator"]["internal_states"] = "single_active_cell_occupancy" + \
+            (", second_occupancy (single_active_cell_occupancy)" if second else "")
     pot = p.get("potential", "inverse_power")
     potsec = {"inverse_power": ("soft_potential (inverse_power_potential)", "SoftPotential",
                                 {"prefactor": repr(p.get("prefactor", 1.0)), "power": repr(float(p.get("power", 6)))}),
@@ -162,6 +171,22 @@ def gen_spheres(p, workdir):
                                             "maximum_number_occupants": str(cells.get("max_occupants", 1))}
         cfg["CuboidPeriodicCells"] = {"cells_per_side": ", ".join(str(c) for c in cells["cells_per_side"]),
                                       "neighbor_layers": str(cells.get("layers", 1))}
+        if second:
+            common2 = {"create": all_motion, "trash": all_motion, "internal_state_label": "second_occupancy"}
+            cfg["Pair2Nearby"] = dict(common2, event_handler="pair2_event_handler (two_leaf_unit_event_handler)",
+                                      number_event_handlers=str(max(1, p["n"])))
+            cfg["Pair2Surplus"] = dict(common2, event_handler="pair2_event_handler (two_leaf_unit_event_handler)",
+                                       number_event_handlers=str(max(1, p["n"])))
+            # as in the shipped two-system configurations, a cell-boundary event re-creates only the events of its own system
+            own2 = "pair2_nearby, pair2_surplus, cell_boundary2"
+            own1 = ", ".join(t for t in pair_tags if t not in ("pair2_nearby", "pair2_surplus", "cell_boundary2"))
+            cfg["CellBoundary2"] = dict(common2, event_handler="cell_boundary_event_handler", create=own2, trash=own2)
+            cfg["CellBoundary"]["create"] = own1
+            cfg["CellBoundary"]["trash"] = own1
+            cfg["Pair2EventHandler"] = {"potential": "second_potential (inverse_power_potential)"}
+            cfg["SecondPotential"] = {"prefactor": repr(1e-3 * (0.2 * min(p["lengths"])) ** 4), "power": "4.0"}
+            cfg["SecondOccupancy"] = {"cells": "cuboid_periodic_cells", "cell_level": "1",
+                                      "maximum_number_occupants": str(cells.get("max_occupants2", 2))}
     cfg["PairEventHandler"] = {"potential": potsec[0]}
     cfg[potsec[1]] = potsec[2]
     cfg["Sampling"] = {"create": "sampling", "trash": "sampling", "event_handler": "fixed_interval_sampling_event_handler"}
